@@ -333,7 +333,10 @@ def run_ref(p: Prog, env, amounts):
 
 def make_env(spec):
     vals = spec['vals']
-    env = {nm: 0.25 * v for nm, v in zip(LEAVES, vals)}
+    # values are 'generic': a distinct irrational-ish offset per leaf keeps comparisons between small integer
+    # combinations of leaves away from exact ties (sympy/symengine may rewrite a relational, e.g. divide by a
+    # coefficient, which can flip an exact tie through rounding)
+    env = {nm: 0.25 * v + 0.0137 * math.sqrt(2 + 3 * i) for i, (nm, v) in enumerate(zip(LEAVES, vals))}
     amounts = {f'A_X{j + 1}(t)': 0.25 * vals[9 + j] + 0.125 for j in range(3)}
     return env, amounts
 
